@@ -1123,6 +1123,35 @@ static void sec_c_switch_pending(vf::Ctx& c) {
     c.count(path == 2 ? "c_allocator_switched_while_countdown_pending_then_expired_then_cleared" : "c_allocator_switched_while_countdown_pending_then_cleared_unexpired");
 }
 
+// ---- section (complete): out-of-memory is requested AGAIN while it is already in force (set_out_of_memory twice, countdown(0) after an
+// expired countdown, ...), with no clear in between. Only forms that ask for out-of-memory NOW are repeated (a positive countdown set while
+// the out-of-memory state is in force has no defined meaning and is not generated). One clear then ends the injection: the requests after it
+// are answered by the allocator that was in effect before the first request for out-of-memory.
+static void sec_c_rearm(vf::Ctx& c) {
+    uint64_t i = c.idx; CBuilder b; vf::Rng r(0xC160, c.idx, 9);
+    int a = (int) (i % 3); i /= 3;
+    int first = (int) (i % 4); i /= 4;                 // 0 direct, 1 countdown(0), 2 countdown(1) + 1 request, 3 countdown(2) + 2 requests (the last one is the first to fail)
+    int between = (int) (i % 2); i /= 2;               // failing requests between the two requests for out-of-memory
+    int second = (int) (i % 2); i /= 2;                // 0 direct, 1 countdown(0)
+    int third = (int) (i % 3); i /= 3;                 // 0 none, 1 direct, 2 countdown(0)
+    bool desig = i & 1;
+    static const int OPS[] = { CO_MALLOC, CO_STRDUP, CO_CALLOC_NL, CO_MALLOC_NL, CO_STRNDUP, CO_CALLOC };
+    int o = (int) (c.idx % 6);
+    { CStep* s = b.push(CO_SWITCH); s->n = a; if (a && desig) s->d[0] = (first >= 2 ? first - 1 : 0) + 3; }     // fires on the 2nd request after the clear (requests reaching the allocator: first-1 before expiry, 1 before arming)
+    b.malloc_type(r, OPS[o++ % 6]);
+    if (first == 0) b.push(CO_SET_OOM); else b.push(CO_SET_COUNTDOWN)->n = first - 1;
+    for (int j = 0; j < first - 1; j++) b.malloc_type(r, OPS[o++ % 6]);
+    for (int j = 0; j < between; j++) b.malloc_type(r, OPS[o++ % 6]);
+    if (second == 0) b.push(CO_SET_OOM); else b.push(CO_SET_COUNTDOWN)->n = 0;
+    b.malloc_type(r, OPS[o++ % 6]);
+    if (third == 1) b.push(CO_SET_OOM); else if (third == 2) b.push(CO_SET_COUNTDOWN)->n = 0;
+    if (third) b.malloc_type(r, OPS[o++ % 6]);
+    b.push(CO_RESTORE);
+    for (int j = 0; j < 3; j++) b.malloc_type(r, OPS[o++ % 6]);
+    c_run_and_judge(c, b, "crearm:" + std::to_string(c.idx));
+    c.count("c_out_of_memory_requested_again_while_in_force");
+}
+
 // ---- section: a global designation registered AFTER some allocations were already made (complete small table).
 // "the n-th allocation overall": the index counts every allocation since the allocator was created or cleared,
 // whether or not a designation was pending at the time. Two designations, registered at different moments.
@@ -1173,6 +1202,7 @@ int main(int argc, char** argv) {
         { "c_realloc_null_in_oom", 24, 24, sec_c_realloc_null, true },
         { "c_episodes_x_malloc_allocators", 6 * 6 * 6, 6 * 6 * 6, sec_c_switch_enum, true },
         { "c_allocator_switch_while_countdown_pending", 3 * 2 * 3 * 3 * 3 * 2, 3 * 2 * 3 * 3 * 3 * 2, sec_c_switch_pending, true },
+        { "c_out_of_memory_requested_again_while_in_force", 3 * 4 * 2 * 2 * 3 * 2, 3 * 4 * 2 * 2 * 3 * 2, sec_c_rearm, true },
         { "check_asked_from_every_place_x_pending", 2 * CX_N * 3 * 3 * 2, 2 * CX_N * 3 * 3 * 2, sec_check_context, true },
         { "c_countdown_x_statistics_call_position", 4 * 8 * 10 * 3, 4 * 8 * 10 * 3, sec_c_stat_enum, true },
         { "global_designation_after_earlier_allocations", 7 * 4 * 3 * 3 * 2 * 4, 7 * 4 * 3 * 3 * 2 * 4, sec_late_global, true },
